@@ -1,5 +1,911 @@
+//@ fn StandardDelta::default
+//@ spec
+    ensures res.is_default(),
 //@ fn StandardDelta::push
-//@ params
-&mut self, item: (P, Action)
+//@ spec
+    requires
+        old(self).counted(),
+        old(self).items@.len() < usize::MAX,
+    ensures
+        final(self).items@ == old(self).items@.push(__p1),
+        // C11: counts match the listed actions
+        final(self).counted(),
 //@ entry
-    let (payload, action) = item;
+    proof {
+        lemma_cnt_total(self.items@);
+        assert(self.items@.push(__p1).drop_last() =~= self.items@);
+    }
+//@ fn StandardDelta::is_empty
+//@ spec
+    ensures res == (self.items@.len() == 0),
+//@ fn StandardDelta::extend
+//@ spec
+    requires
+        old(self).counted(),
+        iter.obeys_prophetic_iter_laws(),
+        iter.decrease() is Some,
+        old(self).items@.len() + iter.remaining().len() <= usize::MAX,
+    ensures
+        final(self).items@ == old(self).items@ + iter.remaining(),
+        iter.will_return_none(),
+        // C11: counts match the listed actions
+        final(self).counted(),
+//@ beforeloop 1
+        let ghost rem0 = iter.remaining();
+        let ghost wrn0 = iter.will_return_none();
+//@ loopvar 1 it
+//@ loop 1
+        invariant
+            self.counted(),
+            it.seq() == rem0, it.iter.obeys_prophetic_iter_laws(), it.iter.decrease() is Some,
+            0 <= it.index@ <= rem0.len(),
+            self.items@ =~= old(self).items@ + rem0.take(it.index@ as int),
+            old(self).items@.len() + rem0.len() <= usize::MAX,
+            it.iter.will_return_none() == wrn0,
+//@ fn StandardDelta::construct
+//@ spec
+    requires
+        // assumptions on the payload type (derive-generated Ord / Clone in rpki)
+        total_order::<P>(),
+        clone_exact::<P>(),
+        // the iterators are lawful and finite
+        old_iter.obeys_prophetic_iter_laws(), old_iter.decrease() is Some,
+        new_iter.obeys_prophetic_iter_laws(), new_iter.decrease() is Some,
+        // the two data sets are strictly sorted (snapshot invariant), and fit into memory
+        ssorted(deref_seq(old_iter.remaining())),
+        ssorted(deref_seq(new_iter.remaining())),
+        old_iter.remaining().len() + new_iter.remaining().len() <= usize::MAX,
+    ensures
+        // C11: the change set withdraws exactly the items of the old set that are not in the new set and
+        // announces exactly the items of the new set that are not in the old set, once each, in key order
+        describes_change(res.items@, deref_seq(old_iter.remaining()), deref_seq(new_iter.remaining())),
+        // C11: it is empty exactly when the two data sets are equal
+        res.items@.len() == 0 <==> deref_seq(old_iter.remaining()) == deref_seq(new_iter.remaining()),
+        // C11: applying it to the old data set yields the new data set
+        applying_yields(deref_seq(old_iter.remaining()), res.items@, deref_seq(new_iter.remaining())),
+        // C11: counts match the listed actions
+        res.counted(),
+        // (the change set as a function of the two data sets; used by C12)
+        res.items@ == diff(deref_seq(old_iter.remaining()), deref_seq(new_iter.remaining())),
+//@ entry
+    let ghost O = deref_seq(old_iter.remaining());
+    let ghost N = deref_seq(new_iter.remaining());
+//@ beforeloop 1
+    proof {
+        assert(rest(opt_old, old_iter.remaining()) =~= O);
+        assert(rest(opt_new, new_iter.remaining()) =~= N);
+    }
+//@ loop 1
+        invariant_except_break
+            diff(O, N) == items.items@ + diff(rest(opt_old, old_iter.remaining()), rest(opt_new, new_iter.remaining())),
+            items.items@.len() + rest(opt_old, old_iter.remaining()).len() + rest(opt_new, new_iter.remaining()).len() <= usize::MAX,
+        invariant
+            clone_exact::<P>(),
+            P::obeys_cmp_spec(),
+            old_iter.obeys_prophetic_iter_laws(), old_iter.decrease() is Some,
+            new_iter.obeys_prophetic_iter_laws(), new_iter.decrease() is Some,
+            opt_old is None ==> old_iter.remaining().len() == 0,
+            opt_new is None ==> new_iter.remaining().len() == 0,
+            items.counted(),
+        ensures
+            items.items@ =~= diff(O, N),
+        decreases
+            (if opt_old is Some { 1 + old_iter.decrease()->Some_0 } else { 0 })
+            + (if opt_new is Some { 1 + new_iter.decrease()->Some_0 } else { 0 }),
+//@ loopentry 1
+            let ghost items0 = items.items@;
+            let ghost ro0 = rest(opt_old, old_iter.remaining());
+            let ghost rn0 = rest(opt_new, new_iter.remaining());
+            proof {
+                lemma_diff_unfold(rest(opt_old, old_iter.remaining()), rest(opt_new, new_iter.remaining()));
+                lemma_rest(opt_old, old_iter.remaining());
+                lemma_rest(opt_new, new_iter.remaining());
+            }
+//@ loopend 1
+            proof {
+                assert(items0 + diff(ro0, rn0)
+                    =~= items.items@ + diff(rest(opt_old, old_iter.remaining()), rest(opt_new, new_iter.remaining())));
+            }
+//@ afterloop 1
+    proof {
+        lemma_diff_describes(O, N);
+        lemma_describes_empty_iff_equal(items.items@, O, N);
+        lemma_describes_apply(items.items@, O, N);
+    }
+//@ closure 1
+|x: &'a P| -> (r: (P, Action)) ensures r == (*x, Action::Announce)
+//@ closurecall 1
+                        proof {
+                            vstd::std_specs::iter::map_postcondition(new_iter, __c1, __r1);
+                            assert(FnW::<&'a P, (P, Action)>::w(&__c1));
+                            assert(__r1.will_return_none() ==> __r1.remaining() =~= ann(deref_seq(new_iter.remaining())));
+                        }
+//@ closure 2
+|x: &'a P| -> (r: (P, Action)) ensures r == (*x, Action::Withdraw)
+//@ closurecall 2
+                        proof {
+                            vstd::std_specs::iter::map_postcondition(old_iter, __c2, __r2);
+                            assert(FnW::<&'a P, (P, Action)>::w(&__c2));
+                            assert(__r2.will_return_none() ==> __r2.remaining() =~= wdr(deref_seq(old_iter.remaining())));
+                        }
+//@ fn StandardDelta::merge
+//@ envcall clone clone_pair item old_item new_item
+//@ envcall cloned iter_cloned_pairs
+//@ spec
+    requires
+        total_order::<P>(),
+        clone_exact::<P>(),
+        old.items@.len() + new.items@.len() <= usize::MAX,
+    ensures
+        // C12: if `old` is the change set from data set a to data set b and `new` the one from b to c,
+        // the result is the change set from a to c: same entries, same order
+        forall|a: Seq<P>, b: Seq<P>, c: Seq<P>|
+            ssorted(a) && ssorted(c)
+            && #[trigger] describes_change(old.items@, a, b) && #[trigger] describes_change(new.items@, b, c)
+            ==> res.items@ == diff(a, c) && describes_change(res.items@, a, c),
+        // C12: counts match the listed actions
+        res.counted(),
+        res.items@ == mrg(old.items@, new.items@),
+//@ entry
+    let ghost X = old.items@;
+    let ghost Y = new.items@;
+//@ beforeloop 1
+    proof {
+        assert(rest(opt_old, old_iter.remaining()) =~= X);
+        assert(rest(opt_new, new_iter.remaining()) =~= Y);
+    }
+//@ loop 1
+        invariant_except_break
+            mrg(X, Y) == items.items@ + mrg(rest(opt_old, old_iter.remaining()), rest(opt_new, new_iter.remaining())),
+            items.items@.len() + rest(opt_old, old_iter.remaining()).len() + rest(opt_new, new_iter.remaining()).len() <= usize::MAX,
+        invariant
+            clone_exact::<P>(),
+            P::obeys_cmp_spec(),
+            old_iter.obeys_prophetic_iter_laws(), old_iter.decrease() is Some,
+            new_iter.obeys_prophetic_iter_laws(), new_iter.decrease() is Some,
+            opt_old is None ==> old_iter.remaining().len() == 0,
+            opt_new is None ==> new_iter.remaining().len() == 0,
+            items.counted(),
+        ensures
+            items.items@ =~= mrg(X, Y),
+        decreases
+            (if opt_old is Some { 1 + old_iter.decrease()->Some_0 } else { 0 })
+            + (if opt_new is Some { 1 + new_iter.decrease()->Some_0 } else { 0 }),
+//@ loopentry 1
+            let ghost items0 = items.items@;
+            let ghost ro0 = rest(opt_old, old_iter.remaining());
+            let ghost rn0 = rest(opt_new, new_iter.remaining());
+            proof {
+                lemma_mrg_unfold(ro0, rn0);
+                lemma_rest(opt_old, old_iter.remaining());
+                lemma_rest(opt_new, new_iter.remaining());
+            }
+//@ afterloop 1
+    proof {
+        assert forall|a: Seq<P>, b: Seq<P>, c: Seq<P>|
+            ssorted(a) && ssorted(c)
+            && #[trigger] describes_change(X, a, b) && #[trigger] describes_change(Y, b, c)
+            implies items.items@ == diff(a, c) && describes_change(items.items@, a, c) by {
+            lemma_mrg_describes(X, Y, a, b, c);
+            lemma_diff_describes(a, c);
+            lemma_describes_unique(items.items@, diff(a, c), a, c);
+        }
+    }
+//@ loopend 1
+            proof {
+                assert(items0 + mrg(ro0, rn0)
+                    =~= items.items@ + mrg(rest(opt_old, old_iter.remaining()), rest(opt_new, new_iter.remaining())));
+            }
+//@ global
+// ---------------------------------------------------------------- order and clone assumptions on P
+spec fn lt<P: Ord>(a: P, b: P) -> bool { a.cmp_spec(&b) == Ordering::Less }
+
+// `Ord for P` is a strict total order whose Equal is ==  (true of derive-generated Ord on
+// RouteOrigin / RouterKey / Asn; stated as an explicit precondition)
+spec fn total_order<P: Ord>() -> bool {
+    &&& P::obeys_cmp_spec()
+    &&& forall|a: P, b: P| (#[trigger] a.cmp_spec(&b) == Ordering::Equal) <==> a == b
+    &&& forall|a: P, b: P| (#[trigger] a.cmp_spec(&b) == Ordering::Greater) <==> b.cmp_spec(&a) == Ordering::Less
+    &&& forall|a: P, b: P, c: P| #[trigger] lt(a, b) && #[trigger] lt(b, c) ==> lt(a, c)
+}
+
+// `Clone for P` returns an equal value
+spec fn clone_exact<P: Clone>() -> bool { forall|a: &P, b: P| #[trigger] call_ensures(P::clone, (a,), b) ==> *a == b }
+
+// device: makes the solver see that a closure literal implements Fn (needed for the
+// Map adapter's iterator laws in a generic function); proves nothing by itself
+trait FnW<A, B> { spec fn w(&self) -> bool; }
+impl<A, B, F: Fn(A) -> B> FnW<A, B> for F { spec fn w(&self) -> bool { true } }
+
+// ---------------------------------------------------------------- sequences
+spec fn ssorted<P: Ord>(s: Seq<P>) -> bool { forall|i: int, j: int| 0 <= i < j < s.len() ==> lt(s[i], s[j]) }
+
+spec fn deref_seq<P>(s: Seq<&P>) -> Seq<P> { s.map_values(|r: &P| *r) }
+spec fn ann<P>(s: Seq<P>) -> Seq<(P, Action)> { s.map_values(|p: P| (p, Action::Announce)) }
+spec fn wdr<P>(s: Seq<P>) -> Seq<(P, Action)> { s.map_values(|p: P| (p, Action::Withdraw)) }
+
+// what is still to be consumed: the looked-ahead item plus what the iterator will yield
+spec fn rest<P>(opt: Option<&P>, rem: Seq<&P>) -> Seq<P> {
+    match opt { Some(x) => seq![*x] + deref_seq(rem), None => Seq::empty() }
+}
+
+proof fn lemma_rest<P>(opt: Option<&P>, rem: Seq<&P>)
+    ensures
+        opt is Some ==> rest(opt, rem).len() == rem.len() + 1 && rest(opt, rem)[0] == *opt->Some_0
+            && rest(opt, rem).drop_first() =~= deref_seq(rem),
+        opt is None ==> rest(opt, rem).len() == 0,
+        rem.len() > 0 ==> deref_seq(rem) =~= rest(Some(rem[0]), rem.drop_first()),
+        rem.len() == 0 ==> deref_seq(rem) =~= rest(None, rem),
+{
+}
+
+// the merge-join of two sorted sequences written as a recursive function (the link between the
+// loop and the declarative statement `describes_change` proved about it below)
+spec fn diff<P: Ord>(o: Seq<P>, n: Seq<P>) -> Seq<(P, Action)>
+    decreases o.len() + n.len()
+{
+    if o.len() == 0 { ann(n) }
+    else if n.len() == 0 { wdr(o) }
+    else {
+        match o[0].cmp_spec(&n[0]) {
+            Ordering::Less => seq![(o[0], Action::Withdraw)] + diff(o.drop_first(), n),
+            Ordering::Equal => diff(o.drop_first(), n.drop_first()),
+            Ordering::Greater => seq![(n[0], Action::Announce)] + diff(o, n.drop_first()),
+        }
+    }
+}
+
+proof fn lemma_diff_unfold<P: Ord>(o: Seq<P>, n: Seq<P>)
+    ensures
+        o.len() == 0 ==> diff(o, n) == ann(n),
+        o.len() > 0 && n.len() == 0 ==> diff(o, n) == wdr(o),
+        o.len() > 0 && n.len() > 0 && o[0].cmp_spec(&n[0]) == Ordering::Less ==>
+            diff(o, n) == seq![(o[0], Action::Withdraw)] + diff(o.drop_first(), n),
+        o.len() > 0 && n.len() > 0 && o[0].cmp_spec(&n[0]) == Ordering::Equal ==>
+            diff(o, n) == diff(o.drop_first(), n.drop_first()),
+        o.len() > 0 && n.len() > 0 && o[0].cmp_spec(&n[0]) == Ordering::Greater ==>
+            diff(o, n) == seq![(n[0], Action::Announce)] + diff(o, n.drop_first()),
+{
+}
+
+// number of entries of `s` carrying action `a`
+spec fn cnt<P>(s: Seq<(P, Action)>, a: Action) -> nat
+    decreases s.len()
+{
+    if s.len() == 0 { 0 } else { cnt(s.drop_last(), a) + if s.last().1 == a { 1nat } else { 0nat } }
+}
+
+impl<P> StandardDelta<P> {
+    // (pub closed only because `Default::default` is a public trait method; the body is visible in this module)
+    pub closed spec fn is_default(&self) -> bool {
+        self.items@ == Seq::<(P, Action)>::empty() && self.announce_len == 0 && self.withdraw_len == 0
+    }
+    // C11: announce_len / withdraw_len are the numbers of Announce / Withdraw entries
+    spec fn counted(&self) -> bool {
+        &&& self.announce_len == cnt(self.items@, Action::Announce)
+        &&& self.withdraw_len == cnt(self.items@, Action::Withdraw)
+    }
+}
+
+proof fn lemma_cnt_total<P>(s: Seq<(P, Action)>)
+    ensures cnt(s, Action::Announce) + cnt(s, Action::Withdraw) == s.len()
+    decreases s.len()
+{
+    if s.len() > 0 { lemma_cnt_total(s.drop_last()); }
+}
+
+// ---------------------------------------------------------------- C12: merging
+// what two change sets say about one key, combined (None: the two cancel out)
+spec fn mrg_action(a: Action, b: Action) -> Option<Action> {
+    match (a, b) {
+        (Action::Announce, Action::Announce) => Some(Action::Announce),
+        (Action::Withdraw, Action::Withdraw) => Some(Action::Withdraw),
+        _ => None,
+    }
+}
+
+// the merge-join of two key-sorted change sets as a recursive function (link between the loop
+// and the statement `lemma_mrg_describes` proved about it)
+spec fn mrg<P: Ord>(x: Seq<(P, Action)>, y: Seq<(P, Action)>) -> Seq<(P, Action)>
+    decreases x.len() + y.len()
+{
+    if x.len() == 0 { y }
+    else if y.len() == 0 { x }
+    else {
+        match x[0].0.cmp_spec(&y[0].0) {
+            Ordering::Less => seq![x[0]] + mrg(x.drop_first(), y),
+            Ordering::Greater => seq![y[0]] + mrg(x, y.drop_first()),
+            Ordering::Equal => (match mrg_action(x[0].1, y[0].1) {
+                Some(a) => seq![(y[0].0, a)],
+                None => Seq::empty(),
+            }) + mrg(x.drop_first(), y.drop_first()),
+        }
+    }
+}
+
+proof fn lemma_mrg_unfold<P: Ord>(x: Seq<(P, Action)>, y: Seq<(P, Action)>)
+    ensures
+        x.len() == 0 ==> mrg(x, y) == y,
+        x.len() > 0 && y.len() == 0 ==> mrg(x, y) == x,
+        x.len() > 0 && y.len() > 0 && x[0].0.cmp_spec(&y[0].0) == Ordering::Less ==>
+            mrg(x, y) == seq![x[0]] + mrg(x.drop_first(), y),
+        x.len() > 0 && y.len() > 0 && x[0].0.cmp_spec(&y[0].0) == Ordering::Greater ==>
+            mrg(x, y) == seq![y[0]] + mrg(x, y.drop_first()),
+        x.len() > 0 && y.len() > 0 && x[0].0.cmp_spec(&y[0].0) == Ordering::Equal ==>
+            mrg(x, y) == (match mrg_action(x[0].1, y[0].1) {
+                Some(a) => seq![(y[0].0, a)],
+                None => Seq::empty(),
+            }) + mrg(x.drop_first(), y.drop_first()),
+{
+}
+// ---------------------------------------------------------------- C11: what diff(o, n) is, declaratively
+spec fn keys_sorted<P: Ord>(d: Seq<(P, Action)>) -> bool {
+    forall|i: int, j: int| 0 <= i < j < d.len() ==> lt(d[i].0, d[j].0)
+}
+
+// C11: `d` lists, in key order and once each, a Withdraw for exactly the items of `o` that are not
+// in `n` and an Announce for exactly the items of `n` that are not in `o`
+spec fn describes_change<P: Ord>(d: Seq<(P, Action)>, o: Seq<P>, n: Seq<P>) -> bool {
+    &&& keys_sorted(d)
+    &&& forall|p: P| #[trigger] d.contains((p, Action::Withdraw)) <==> (o.contains(p) && !n.contains(p))
+    &&& forall|p: P| #[trigger] d.contains((p, Action::Announce)) <==> (n.contains(p) && !o.contains(p))
+}
+
+proof fn lemma_contains_cons<T>(x: T, s: Seq<T>, y: T)
+    ensures (seq![x] + s).contains(y) <==> (y == x || s.contains(y)),
+{
+    let c = seq![x] + s;
+    if c.contains(y) {
+        let i = choose|i: int| 0 <= i < c.len() && c[i] == y;
+        if i > 0 { assert(s[i - 1] == y); }
+    }
+    if y == x { assert(c[0] == y); }
+    if s.contains(y) {
+        let i = choose|i: int| 0 <= i < s.len() && s[i] == y;
+        assert(c[i + 1] == y);
+    }
+}
+
+proof fn lemma_contains_first<T>(s: Seq<T>, y: T)
+    requires s.len() > 0,
+    ensures s.contains(y) <==> (y == s[0] || s.drop_first().contains(y)),
+{
+    assert(s =~= seq![s[0]] + s.drop_first());
+    lemma_contains_cons(s[0], s.drop_first(), y);
+}
+
+proof fn lemma_sorted_tail<P: Ord>(s: Seq<P>)
+    requires total_order::<P>(), ssorted(s), s.len() > 0,
+    ensures
+        ssorted(s.drop_first()),
+        forall|y: P| #[trigger] s.drop_first().contains(y) ==> lt(s[0], y),
+        !s.drop_first().contains(s[0]),
+{
+    let t = s.drop_first();
+    assert forall|i: int, j: int| 0 <= i < j < t.len() implies lt(t[i], t[j]) by {
+        assert(t[i] == s[i + 1] && t[j] == s[j + 1]);
+    }
+    assert forall|y: P| #[trigger] t.contains(y) implies lt(s[0], y) by {
+        let i = choose|i: int| 0 <= i < t.len() && t[i] == y;
+        assert(t[i] == s[i + 1]);
+    }
+    if t.contains(s[0]) {
+        assert(lt(s[0], s[0]));
+        assert(s[0].cmp_spec(&s[0]) == Ordering::Equal);
+    }
+}
+
+// every element of a sorted sequence is >= its head
+proof fn lemma_sorted_head_min<P: Ord>(s: Seq<P>, y: P)
+    requires total_order::<P>(), ssorted(s), s.len() > 0, s.contains(y),
+    ensures y == s[0] || lt(s[0], y),
+{
+    lemma_contains_first(s, y);
+    lemma_sorted_tail(s);
+}
+
+proof fn lemma_map_contains<P>(s: Seq<P>, a: Action, p: P, b: Action)
+    ensures s.map_values(|q: P| (q, a)).contains((p, b)) <==> (b == a && s.contains(p)),
+{
+    let m = s.map_values(|q: P| (q, a));
+    if m.contains((p, b)) {
+        let i = choose|i: int| 0 <= i < m.len() && m[i] == (p, b);
+        assert(m[i] == (s[i], a));
+        assert(s[i] == p);
+    }
+    if b == a && s.contains(p) {
+        let i = choose|i: int| 0 <= i < s.len() && s[i] == p;
+        assert(m[i] == (p, b));
+    }
+}
+
+// the keys occurring in diff(o, n) occur in o or in n
+proof fn lemma_diff_describes<P: Ord>(o: Seq<P>, n: Seq<P>)
+    requires total_order::<P>(), ssorted(o), ssorted(n),
+    ensures describes_change(diff(o, n), o, n),
+    decreases o.len() + n.len(),
+{
+    let d = diff(o, n);
+    if o.len() == 0 {
+        assert forall|i: int, j: int| 0 <= i < j < d.len() implies lt(d[i].0, d[j].0) by {
+            assert(d[i].0 == n[i] && d[j].0 == n[j]);
+        }
+        assert forall|p: P| #[trigger] d.contains((p, Action::Withdraw)) <==> (o.contains(p) && !n.contains(p)) by {
+            lemma_map_contains(n, Action::Announce, p, Action::Withdraw);
+        }
+        assert forall|p: P| #[trigger] d.contains((p, Action::Announce)) <==> (n.contains(p) && !o.contains(p)) by {
+            lemma_map_contains(n, Action::Announce, p, Action::Announce);
+        }
+    } else if n.len() == 0 {
+        assert forall|i: int, j: int| 0 <= i < j < d.len() implies lt(d[i].0, d[j].0) by {
+            assert(d[i].0 == o[i] && d[j].0 == o[j]);
+        }
+        assert forall|p: P| #[trigger] d.contains((p, Action::Withdraw)) <==> (o.contains(p) && !n.contains(p)) by {
+            lemma_map_contains(o, Action::Withdraw, p, Action::Withdraw);
+        }
+        assert forall|p: P| #[trigger] d.contains((p, Action::Announce)) <==> (n.contains(p) && !o.contains(p)) by {
+            lemma_map_contains(o, Action::Withdraw, p, Action::Announce);
+        }
+    } else {
+        let o1 = o.drop_first();
+        let n1 = n.drop_first();
+        lemma_sorted_tail(o);
+        lemma_sorted_tail(n);
+        match o[0].cmp_spec(&n[0]) {
+            Ordering::Less => {
+                let d1 = diff(o1, n);
+                lemma_diff_describes(o1, n);
+                assert(d == seq![(o[0], Action::Withdraw)] + d1);
+                assert(lt(o[0], n[0]));
+                // o[0] is not in n
+                if n.contains(o[0]) { lemma_sorted_head_min(n, o[0]); }
+                assert forall|p: P| #[trigger] d.contains((p, Action::Withdraw)) <==> (o.contains(p) && !n.contains(p)) by {
+                    lemma_contains_cons((o[0], Action::Withdraw), d1, (p, Action::Withdraw));
+                    lemma_contains_first(o, p);
+                }
+                assert forall|p: P| #[trigger] d.contains((p, Action::Announce)) <==> (n.contains(p) && !o.contains(p)) by {
+                    lemma_contains_cons((o[0], Action::Withdraw), d1, (p, Action::Announce));
+                    lemma_contains_first(o, p);
+                }
+                assert(d.len() == d1.len() + 1);
+                assert forall|i: int, j: int| 0 <= i < j < d.len() implies lt(d[i].0, d[j].0) by {
+                    if i > 0 {
+                        assert(d[i] == d1[i - 1] && d[j] == d1[j - 1]);
+                    } else {
+                        let e = d1[j - 1];
+                        assert(d[j] == e);
+                        assert(d1.contains(e));
+                        assert forall|y: P| #[trigger] n.contains(y) implies lt(o[0], y) by {
+                            lemma_sorted_head_min(n, y);
+                        }
+                        lemma_key_bound(d1, o1, n, e, o[0]);
+                    }
+                }
+            }
+            Ordering::Equal => {
+                lemma_diff_describes(o1, n1);
+                assert(d == diff(o1, n1));
+                assert(o[0] == n[0]);
+                assert forall|p: P| #[trigger] d.contains((p, Action::Withdraw)) <==> (o.contains(p) && !n.contains(p)) by {
+                    lemma_contains_first(o, p);
+                    lemma_contains_first(n, p);
+                }
+                assert forall|p: P| #[trigger] d.contains((p, Action::Announce)) <==> (n.contains(p) && !o.contains(p)) by {
+                    lemma_contains_first(o, p);
+                    lemma_contains_first(n, p);
+                }
+            }
+            Ordering::Greater => {
+                let d1 = diff(o, n1);
+                lemma_diff_describes(o, n1);
+                assert(d == seq![(n[0], Action::Announce)] + d1);
+                assert(lt(n[0], o[0]));
+                if o.contains(n[0]) { lemma_sorted_head_min(o, n[0]); }
+                assert forall|p: P| #[trigger] d.contains((p, Action::Withdraw)) <==> (o.contains(p) && !n.contains(p)) by {
+                    lemma_contains_cons((n[0], Action::Announce), d1, (p, Action::Withdraw));
+                    lemma_contains_first(n, p);
+                }
+                assert forall|p: P| #[trigger] d.contains((p, Action::Announce)) <==> (n.contains(p) && !o.contains(p)) by {
+                    lemma_contains_cons((n[0], Action::Announce), d1, (p, Action::Announce));
+                    lemma_contains_first(n, p);
+                }
+                assert(d.len() == d1.len() + 1);
+                assert forall|i: int, j: int| 0 <= i < j < d.len() implies lt(d[i].0, d[j].0) by {
+                    if i > 0 {
+                        assert(d[i] == d1[i - 1] && d[j] == d1[j - 1]);
+                    } else {
+                        let e = d1[j - 1];
+                        assert(d[j] == e);
+                        assert(d1.contains(e));
+                        assert forall|y: P| #[trigger] o.contains(y) implies lt(n[0], y) by {
+                            lemma_sorted_head_min(o, y);
+                        }
+                        lemma_key_bound(d1, o, n1, e, n[0]);
+                    }
+                }
+            }
+        }
+    }
+}
+
+// an entry of a change set between o and n whose members are all above `b` has a key above `b`
+proof fn lemma_key_bound<P: Ord>(d: Seq<(P, Action)>, o: Seq<P>, n: Seq<P>, e: (P, Action), b: P)
+    requires
+        describes_change(d, o, n), d.contains(e),
+        forall|y: P| #[trigger] o.contains(y) ==> lt(b, y),
+        forall|y: P| #[trigger] n.contains(y) ==> lt(b, y),
+    ensures lt(b, e.0),
+{
+    match e.1 {
+        Action::Announce => { assert(d.contains((e.0, Action::Announce))); }
+        Action::Withdraw => { assert(d.contains((e.0, Action::Withdraw))); }
+    }
+}
+
+// ---------------------------------------------------------------- sorted sequences are determined by their elements
+spec fn sorted_by<T, K: Ord>(s: Seq<T>, key: spec_fn(T) -> K) -> bool {
+    forall|i: int, j: int| 0 <= i < j < s.len() ==> lt(key(s[i]), key(s[j]))
+}
+
+proof fn lemma_lt_asym<K: Ord>(x: K, y: K)
+    requires total_order::<K>(), lt(x, y),
+    ensures !lt(y, x), x != y,
+{
+    if lt(y, x) { assert(lt(x, x)); }
+    assert(x.cmp_spec(&x) == Ordering::Equal);
+}
+
+proof fn lemma_sorted_unique<T, K: Ord>(a: Seq<T>, b: Seq<T>, key: spec_fn(T) -> K)
+    requires
+        total_order::<K>(),
+        sorted_by(a, key), sorted_by(b, key),
+        forall|e: T| a.contains(e) <==> b.contains(e),
+    ensures a == b,
+    decreases a.len(),
+{
+    if a.len() == 0 {
+        if b.len() > 0 { assert(b.contains(b[0])); assert(a.contains(b[0])); }
+        assert(a =~= b);
+    } else {
+        assert(a.contains(a[0]));
+        assert(b.contains(a[0]));
+        let k = choose|k: int| 0 <= k < b.len() && b[k] == a[0];
+        assert(b.contains(b[0]));
+        assert(a.contains(b[0]));
+        let m = choose|m: int| 0 <= m < a.len() && a[m] == b[0];
+        if m > 0 {
+            assert(lt(key(a[0]), key(a[m])));
+            if k > 0 {
+                assert(lt(key(b[0]), key(b[k])));
+                lemma_lt_asym(key(a[0]), key(b[0]));
+            } else {
+                lemma_lt_asym(key(a[0]), key(a[m]));
+            }
+        }
+        assert(a[0] == b[0]);
+        let a1 = a.drop_first();
+        let b1 = b.drop_first();
+        assert forall|i: int, j: int| 0 <= i < j < a1.len() implies lt(key(a1[i]), key(a1[j])) by {
+            assert(a1[i] == a[i + 1] && a1[j] == a[j + 1]);
+        }
+        assert forall|i: int, j: int| 0 <= i < j < b1.len() implies lt(key(b1[i]), key(b1[j])) by {
+            assert(b1[i] == b[i + 1] && b1[j] == b[j + 1]);
+        }
+        assert forall|e: T| a1.contains(e) <==> b1.contains(e) by {
+            lemma_contains_first(a, e);
+            lemma_contains_first(b, e);
+            if a1.contains(e) {
+                let i = choose|i: int| 0 <= i < a1.len() && a1[i] == e;
+                assert(a1[i] == a[i + 1]);
+                assert(lt(key(a[0]), key(a[i + 1])));
+                lemma_lt_asym(key(a[0]), key(e));
+            }
+            if b1.contains(e) {
+                let i = choose|i: int| 0 <= i < b1.len() && b1[i] == e;
+                assert(b1[i] == b[i + 1]);
+                assert(lt(key(b[0]), key(b[i + 1])));
+                lemma_lt_asym(key(b[0]), key(e));
+            }
+        }
+        lemma_sorted_unique(a1, b1, key);
+        assert(a =~= seq![a[0]] + a1);
+        assert(b =~= seq![b[0]] + b1);
+    }
+}
+
+// C11: there is exactly one change set describing the change from o to n
+proof fn lemma_describes_unique<P: Ord>(d1: Seq<(P, Action)>, d2: Seq<(P, Action)>, o: Seq<P>, n: Seq<P>)
+    requires total_order::<P>(), describes_change(d1, o, n), describes_change(d2, o, n),
+    ensures d1 == d2,
+{
+    let key = |e: (P, Action)| e.0;
+    assert(sorted_by(d1, key)) by {
+        assert forall|i: int, j: int| 0 <= i < j < d1.len() implies lt(key(d1[i]), key(d1[j])) by {}
+    }
+    assert(sorted_by(d2, key)) by {
+        assert forall|i: int, j: int| 0 <= i < j < d2.len() implies lt(key(d2[i]), key(d2[j])) by {}
+    }
+    assert forall|e: (P, Action)| d1.contains(e) <==> d2.contains(e) by {
+        match e.1 {
+            Action::Announce => {
+                assert(e == (e.0, Action::Announce));
+                assert(d1.contains((e.0, Action::Announce)) <==> d2.contains((e.0, Action::Announce)));
+            }
+            Action::Withdraw => {
+                assert(e == (e.0, Action::Withdraw));
+                assert(d1.contains((e.0, Action::Withdraw)) <==> d2.contains((e.0, Action::Withdraw)));
+            }
+        }
+    }
+    lemma_sorted_unique(d1, d2, key);
+}
+
+// C11: the change set is empty exactly when the two data sets are equal
+proof fn lemma_describes_empty_iff_equal<P: Ord>(d: Seq<(P, Action)>, o: Seq<P>, n: Seq<P>)
+    requires total_order::<P>(), ssorted(o), ssorted(n), describes_change(d, o, n),
+    ensures d.len() == 0 <==> o == n,
+{
+    if o == n && d.len() > 0 {
+        let e = d[0];
+        assert(d.contains(e));
+        match e.1 {
+            Action::Announce => { assert(d.contains((e.0, Action::Announce))); }
+            Action::Withdraw => { assert(d.contains((e.0, Action::Withdraw))); }
+        }
+    }
+    if d.len() == 0 {
+        let key = |p: P| p;
+        assert(sorted_by(o, key)) by {
+            assert forall|i: int, j: int| 0 <= i < j < o.len() implies lt(key(o[i]), key(o[j])) by {}
+        }
+        assert(sorted_by(n, key)) by {
+            assert forall|i: int, j: int| 0 <= i < j < n.len() implies lt(key(n[i]), key(n[j])) by {}
+        }
+        assert forall|p: P| o.contains(p) <==> n.contains(p) by {
+            assert(!d.contains((p, Action::Withdraw)));
+            assert(!d.contains((p, Action::Announce)));
+        }
+        lemma_sorted_unique(o, n, key);
+    }
+}
+
+// C11: applying the change set `d` to the data set `o` (drop the withdrawn items, add the announced
+// ones) yields the data set `n`
+spec fn applying_yields<P>(o: Seq<P>, d: Seq<(P, Action)>, n: Seq<P>) -> bool {
+    forall|p: P| #[trigger] n.contains(p) <==>
+        ((o.contains(p) && !d.contains((p, Action::Withdraw))) || d.contains((p, Action::Announce)))
+}
+
+proof fn lemma_describes_apply<P: Ord>(d: Seq<(P, Action)>, o: Seq<P>, n: Seq<P>)
+    requires describes_change(d, o, n),
+    ensures applying_yields(o, d, n),
+{
+    assert forall|p: P| #[trigger] n.contains(p) <==>
+        ((o.contains(p) && !d.contains((p, Action::Withdraw))) || d.contains((p, Action::Announce))) by {
+        assert(d.contains((p, Action::Withdraw)) <==> (o.contains(p) && !n.contains(p)));
+        assert(d.contains((p, Action::Announce)) <==> (n.contains(p) && !o.contains(p)));
+    }
+}
+
+spec fn haskey<P>(s: Seq<(P, Action)>, p: P) -> bool {
+    s.contains((p, Action::Announce)) || s.contains((p, Action::Withdraw))
+}
+
+// which entries the merge of two key-sorted change sets has: an entry of one of them whose key the
+// other does not mention, or an entry both have
+spec fn mrg_member<P>(x: Seq<(P, Action)>, y: Seq<(P, Action)>, e: (P, Action)) -> bool {
+    ||| (x.contains(e) && !haskey(y, e.0))
+    ||| (y.contains(e) && !haskey(x, e.0))
+    ||| (x.contains(e) && y.contains(e))
+}
+
+proof fn lemma_entry<P>(e: (P, Action))
+    ensures e == (e.0, Action::Announce) || e == (e.0, Action::Withdraw),
+{
+    match e.1 { Action::Announce => {}, Action::Withdraw => {} }
+}
+
+proof fn lemma_keys_tail<P: Ord>(s: Seq<(P, Action)>)
+    requires total_order::<P>(), keys_sorted(s), s.len() > 0,
+    ensures
+        keys_sorted(s.drop_first()),
+        forall|e: (P, Action)| #[trigger] s.drop_first().contains(e) ==> lt(s[0].0, e.0),
+        !haskey(s.drop_first(), s[0].0),
+{
+    let t = s.drop_first();
+    assert forall|i: int, j: int| 0 <= i < j < t.len() implies lt(t[i].0, t[j].0) by {
+        assert(t[i] == s[i + 1] && t[j] == s[j + 1]);
+    }
+    assert forall|e: (P, Action)| #[trigger] t.contains(e) implies lt(s[0].0, e.0) by {
+        let i = choose|i: int| 0 <= i < t.len() && t[i] == e;
+        assert(t[i] == s[i + 1]);
+    }
+    if haskey(t, s[0].0) {
+        assert(lt(s[0].0, s[0].0));
+        assert(s[0].0.cmp_spec(&s[0].0) == Ordering::Equal);
+    }
+}
+
+// in a key-sorted change set every key is at or above the first
+proof fn lemma_keys_head_min<P: Ord>(s: Seq<(P, Action)>, e: (P, Action))
+    requires total_order::<P>(), keys_sorted(s), s.len() > 0, s.contains(e),
+    ensures e == s[0] || lt(s[0].0, e.0),
+{
+    lemma_contains_first(s, e);
+    lemma_keys_tail(s);
+}
+
+// a key below the first key does not occur
+proof fn lemma_below_head_absent<P: Ord>(s: Seq<(P, Action)>, k: P)
+    requires total_order::<P>(), keys_sorted(s), s.len() > 0, lt(k, s[0].0),
+    ensures !haskey(s, k),
+{
+    if s.contains((k, Action::Announce)) {
+        lemma_keys_head_min(s, (k, Action::Announce));
+        lemma_lt_asym(k, s[0].0);
+    }
+    if s.contains((k, Action::Withdraw)) {
+        lemma_keys_head_min(s, (k, Action::Withdraw));
+        lemma_lt_asym(k, s[0].0);
+    }
+}
+
+proof fn lemma_haskey_first<P: Ord>(s: Seq<(P, Action)>, p: P)
+    requires s.len() > 0,
+    ensures haskey(s, p) <==> (p == s[0].0 || haskey(s.drop_first(), p)),
+{
+    lemma_contains_first(s, (p, Action::Announce));
+    lemma_contains_first(s, (p, Action::Withdraw));
+    lemma_entry(s[0]);
+}
+
+proof fn lemma_mrg_members<P: Ord>(x: Seq<(P, Action)>, y: Seq<(P, Action)>)
+    requires total_order::<P>(), keys_sorted(x), keys_sorted(y),
+    ensures
+        keys_sorted(mrg(x, y)),
+        forall|e: (P, Action)| #[trigger] mrg(x, y).contains(e) <==> mrg_member(x, y, e),
+    decreases x.len() + y.len(),
+{
+    let m = mrg(x, y);
+    if x.len() == 0 {
+        assert forall|e: (P, Action)| #[trigger] m.contains(e) <==> mrg_member(x, y, e) by {}
+    } else if y.len() == 0 {
+        assert forall|e: (P, Action)| #[trigger] m.contains(e) <==> mrg_member(x, y, e) by {}
+    } else {
+        let x1 = x.drop_first();
+        let y1 = y.drop_first();
+        lemma_keys_tail(x);
+        lemma_keys_tail(y);
+        match x[0].0.cmp_spec(&y[0].0) {
+            Ordering::Less => {
+                let m1 = mrg(x1, y);
+                lemma_mrg_members(x1, y);
+                assert(m == seq![x[0]] + m1);
+                assert(lt(x[0].0, y[0].0));
+                lemma_below_head_absent(y, x[0].0);
+                assert forall|e: (P, Action)| #[trigger] m.contains(e) <==> mrg_member(x, y, e) by {
+                    lemma_contains_cons(x[0], m1, e);
+                    lemma_contains_first(x, e);
+                    lemma_haskey_first(x, e.0);
+                    assert(m1.contains(e) <==> mrg_member(x1, y, e));
+                    lemma_entry(e);
+                    if e.0 == x[0].0 {
+                        // x1 and y do not mention this key
+                    }
+                }
+                assert(m.len() == m1.len() + 1);
+                assert forall|i: int, j: int| 0 <= i < j < m.len() implies lt(m[i].0, m[j].0) by {
+                    if i > 0 {
+                        assert(m[i] == m1[i - 1] && m[j] == m1[j - 1]);
+                    } else {
+                        let e = m1[j - 1];
+                        assert(m[j] == e);
+                        assert(m1.contains(e));
+                        assert(mrg_member(x1, y, e));
+                        if y.contains(e) {
+                            lemma_keys_head_min(y, e);
+                        }
+                    }
+                }
+            }
+            Ordering::Greater => {
+                let m1 = mrg(x, y1);
+                lemma_mrg_members(x, y1);
+                assert(m == seq![y[0]] + m1);
+                assert(lt(y[0].0, x[0].0));
+                lemma_below_head_absent(x, y[0].0);
+                assert forall|e: (P, Action)| #[trigger] m.contains(e) <==> mrg_member(x, y, e) by {
+                    lemma_contains_cons(y[0], m1, e);
+                    lemma_contains_first(y, e);
+                    lemma_haskey_first(y, e.0);
+                    assert(m1.contains(e) <==> mrg_member(x, y1, e));
+                    lemma_entry(e);
+                }
+                assert(m.len() == m1.len() + 1);
+                assert forall|i: int, j: int| 0 <= i < j < m.len() implies lt(m[i].0, m[j].0) by {
+                    if i > 0 {
+                        assert(m[i] == m1[i - 1] && m[j] == m1[j - 1]);
+                    } else {
+                        let e = m1[j - 1];
+                        assert(m[j] == e);
+                        assert(m1.contains(e));
+                        assert(mrg_member(x, y1, e));
+                        if x.contains(e) {
+                            lemma_keys_head_min(x, e);
+                        }
+                    }
+                }
+            }
+            Ordering::Equal => {
+                let m1 = mrg(x1, y1);
+                lemma_mrg_members(x1, y1);
+                let k = y[0].0;
+                assert(x[0].0 == k);
+                let t: Seq<(P, Action)> = match mrg_action(x[0].1, y[0].1) {
+                    Some(a) => seq![(k, a)],
+                    None => Seq::empty(),
+                };
+                assert(m == t + m1);
+                lemma_entry(x[0]);
+                lemma_entry(y[0]);
+                assert forall|e: (P, Action)| #[trigger] m.contains(e) <==> mrg_member(x, y, e) by {
+                    lemma_contains_first(x, e);
+                    lemma_contains_first(y, e);
+                    lemma_haskey_first(x, e.0);
+                    lemma_haskey_first(y, e.0);
+                    assert(m1.contains(e) <==> mrg_member(x1, y1, e));
+                    lemma_entry(e);
+                    if t.len() == 0 {
+                        assert(m =~= m1);
+                    } else {
+                        assert(t =~= seq![t[0]]);
+                        lemma_contains_cons(t[0], m1, e);
+                    }
+                }
+                assert forall|i: int, j: int| 0 <= i < j < m.len() implies lt(m[i].0, m[j].0) by {
+                    if t.len() == 0 {
+                        assert(m =~= m1);
+                    } else {
+                        assert(m.len() == m1.len() + 1);
+                        if i > 0 {
+                            assert(m[i] == m1[i - 1] && m[j] == m1[j - 1]);
+                        } else {
+                            let e = m1[j - 1];
+                            assert(m[j] == e);
+                            assert(m[0].0 == k);
+                            assert(m1.contains(e));
+                            assert(mrg_member(x1, y1, e));
+                        }
+                    }
+                }
+            }
+        }
+    }
+}
+
+// C12: merging the change set from a to b with the change set from b to c gives the change set
+// from a to c
+proof fn lemma_mrg_describes<P: Ord>(x: Seq<(P, Action)>, y: Seq<(P, Action)>, a: Seq<P>, b: Seq<P>, c: Seq<P>)
+    requires
+        total_order::<P>(),
+        describes_change(x, a, b), describes_change(y, b, c),
+    ensures
+        describes_change(mrg(x, y), a, c),
+{
+    let m = mrg(x, y);
+    lemma_mrg_members(x, y);
+    assert forall|p: P| #[trigger] m.contains((p, Action::Withdraw)) <==> (a.contains(p) && !c.contains(p)) by {
+        assert(m.contains((p, Action::Withdraw)) <==> mrg_member(x, y, (p, Action::Withdraw)));
+        assert(x.contains((p, Action::Withdraw)) <==> (a.contains(p) && !b.contains(p)));
+        assert(x.contains((p, Action::Announce)) <==> (b.contains(p) && !a.contains(p)));
+        assert(y.contains((p, Action::Withdraw)) <==> (b.contains(p) && !c.contains(p)));
+        assert(y.contains((p, Action::Announce)) <==> (c.contains(p) && !b.contains(p)));
+    }
+    assert forall|p: P| #[trigger] m.contains((p, Action::Announce)) <==> (c.contains(p) && !a.contains(p)) by {
+        assert(m.contains((p, Action::Announce)) <==> mrg_member(x, y, (p, Action::Announce)));
+        assert(x.contains((p, Action::Withdraw)) <==> (a.contains(p) && !b.contains(p)));
+        assert(x.contains((p, Action::Announce)) <==> (b.contains(p) && !a.contains(p)));
+        assert(y.contains((p, Action::Withdraw)) <==> (b.contains(p) && !c.contains(p)));
+        assert(y.contains((p, Action::Announce)) <==> (c.contains(p) && !b.contains(p)));
+    }
+}
